@@ -104,6 +104,32 @@ Theorem C10_new_herald_modes_follow_existing_ones : forall m0 nL hpos i,
 Proof. exact herald_positions. Qed.
 Print Assumptions C10_new_herald_modes_follow_existing_ones.
 
+(* ---- ports of the added processor (the code as it is now, rule of 6d353ebc) ----
+   every port of the result was already on the left-hand side or sits exactly on the images of the modes of a port of
+   the added processor, and all ports lie inside the circuit (in/out_port_names are total), for ALL mappings *)
+Theorem C10_ports_sit_on_images_inside_the_circuit : forall (R : cring) tb (e : exp R) mp r keep e' seg,
+  add_proc tb cfg_now e mp r keep = (e', true, seg) ->
+  exists m',
+    (forall q, In q (e_out e') -> In q (e_out e) \/ on_images m' (e_out r) q) /\
+    (forall q, In q (e_in e') -> In q (e_in e) \/ on_images m' (e_out r ++ e_in r) q) /\
+    (0 < csize e -> ports_within (csize e) (e_in e) -> ports_within (csize e) (e_out e) ->
+     ports_within (csize e') (e_in e') /\ ports_within (csize e') (e_out e')).
+Proof. intros R tb. exact (add_proc_ports R tb cfg_now eq_refl). Qed.
+Print Assumptions C10_ports_sit_on_images_inside_the_circuit.
+
+(* hence a mode created beyond the circuit for a new herald is never "occupied" *)
+Theorem C10_new_herald_mode_is_free : forall n ports x, ports_within n ports -> n <= x -> free ports [x] = true.
+Proof. exact within_free. Qed.
+Print Assumptions C10_new_herald_mode_is_free.
+
+(* historical: before 6d353ebc a two-mode port plugged through [1,0] on a 2-mode processor landed on modes [1,2] *)
+Theorem C10_port_beyond_circuit_old_code : forall R : cring,
+  let res := add_proc (fun _ A => A) cfg_old (new_exp (R:=R) 2) (MList [1%Z; 0%Z]) (stick_right R) true in
+  snd (fst res) = true /\ ports_within 2 (e_out (stick_right R)) /\
+  ~ ports_within (csize (fst (fst res))) (e_out (fst (fst res))).
+Proof. exact port_beyond_circuit_old_code. Qed.
+Print Assumptions C10_port_beyond_circuit_old_code.
+
 (* ---- post-selection of the added processor ---- *)
 (* right mode r leaves the segment on mode right_mode mn pv r = min + pv^-1[r]; the condition re-expressed in the new
    numbering evaluates on a state exactly as the original does on the state seen through that renumbering *)
